@@ -1,7 +1,7 @@
 (* C11 correspondence: what the harness observed of the real stringToIdentifier,
    Generate and GenerateIndex, compared with the model and judged by the
    validators of Spec/SbomSpec.v (run on the OBSERVED documents). *)
-From Apko Require Export Base.Prelude Base.C01Lib Model.Sbom Spec.SbomSpec Model.SbomLic Spec.SbomLicSpec Model.SbomProv Spec.SbomProvSpec.
+From Apko Require Export Base.Prelude Base.C01Lib Model.Sbom Spec.SbomSpec Model.SbomLic Spec.SbomLicSpec Model.SbomProv Spec.SbomProvSpec Model.SbomRelease Spec.SbomReleaseSpec.
 Open Scope string_scope. Open Scope list_scope.
 
 Definition mkp (i n v : string) (s : list (string * string)) : pkg :=
@@ -259,10 +259,31 @@ Definition check_lic (c : lic_case) : list string :=
   | OPanic => match g_layers g with [] => [] | _ => ["viol:generate-panics"] end
   end.
 
-(* one stage, one Cases file for both kinds *)
-Inductive licx_case := LMerge (c : mlic_case) | LGen (c : lic_case).
+(* readReleaseData on the content of /etc/os-release (None: no such file); observation = (ID, NAME,
+   VERSION_ID), None = error *)
+Record rel_case := { rl_file : option string; rl_obs : option (string * string * string) }.
+Definition check_release (c : rel_case) : list string :=
+  match read_release (rl_file c), rl_obs c with
+  | Ok r, Some (i, n, v) =>
+      tag_if (negb (String.eqb (rd_id r) i && String.eqb (rd_name r) n && String.eqb (rd_version r) v)) "mismatch:read-release-data"
+  | Err, None => []
+  | _, _ => ["mismatch:read-release-data-outcome"]
+  end ++
+  match rl_file c, rl_obs c with
+  | Some s, Some (i, n, v) =>
+      let want k := match last_assign k (scan_lines s) with Some x => x | None => "" end in
+      tag_if (negb (String.eqb v (want "VERSION_ID"))) "viol:os-release-version-id-not-the-last-assignment" ++
+      tag_if (negb (String.eqb i (want "ID") && String.eqb n (want "NAME"))) "viol:os-release-field-not-the-last-assignment" ++
+      tag_if (existsb malformed_b (scan_lines s)) "viol:os-release-malformed-line-accepted"
+  | Some s, None => tag_if (negb (existsb malformed_b (scan_lines s))) "viol:os-release-well-formed-file-refused"
+  | None, Some (i, n, v) => tag_if (negb (String.eqb v "unknown" && String.eqb i "unknown")) "viol:os-release-missing-file-defaults"
+  | None, None => ["viol:os-release-missing-file-refused"]
+  end.
+
+(* one stage, one Cases file for the three kinds *)
+Inductive licx_case := LMerge (c : mlic_case) | LGen (c : lic_case) | LRelease (c : rel_case).
 Definition check_licx (c : licx_case) : list string :=
-  match c with LMerge m => check_mlic m | LGen g => check_lic g end.
+  match c with LMerge m => check_mlic m | LGen g => check_lic g | LRelease r => check_release r end.
 
 (* ---- units: replacePackage / copySBOMElements on arbitrary documents ----------- *)
 Record repl_case := { rc_doc : doc; rc_old : string; rc_new : string; rc_obs : doc }.
